@@ -39,3 +39,24 @@ inline int popcount64(uint64_t x) { return __builtin_popcountll(x); }
 // Half of the cases construct the wrapper under test from an rvalue payload (forwarding constructors must not use a forwarded
 // argument twice), the other half from a plain value.
 inline bool ctor_from_rvalue(const vh::Case& c) { unsigned h = 0; for (auto& f : c.fibers) for (auto& o : f) h = h * 31 + (unsigned)o.code + (unsigned)o.a; return (h & 1) != 0; }
+
+// Durations / deadlines handed to the timed forms.  sel 0..3: the ordinary small positive wait; 4: zero; 5: -1 ms; 6: -2 h; 7: the most
+// negative duration (durations only).  A non-positive duration or a deadline in the past is a plain try: the call must not block.
+inline std::chrono::nanoseconds timed_arg(int sel, bool for_deadline) {
+    switch (sel & 7) {
+        case 4: return std::chrono::nanoseconds(0);
+        case 5: return std::chrono::nanoseconds(-1000000);
+        case 6: return std::chrono::duration_cast<std::chrono::nanoseconds>(std::chrono::hours(-2));
+        case 7: return for_deadline ? std::chrono::duration_cast<std::chrono::nanoseconds>(std::chrono::minutes(-90)) : std::chrono::nanoseconds::min();
+        default: return std::chrono::nanoseconds(for_deadline ? 50000000 : 3000000);
+    }
+}
+
+
+// Runs `f` from a destructor while an exception is propagating (std::uncaught_exceptions() > 0), the way RAII clean-up code calls into
+// the library during stack unwinding.  `f` must not throw.
+template<class F> inline void during_unwinding(F&& f) {
+    struct Guard { F& fn; ~Guard() { fn(); } };
+    struct Unwinding {};
+    try { Guard g{f}; throw Unwinding{}; } catch (const Unwinding&) {}
+}
